@@ -34,12 +34,15 @@ def gen_plan(seed, tier, idx):
     rng = random.Random(seed)
     steps = []
     n = rng.randint(4, 16)
-    cli_used = False
+    cli_used = 0
     for _ in range(n):
         x = rng.random()
         if x < 0.30:
-            f = gen_fresh(rng, cheap=cli_used)
-            cli_used = cli_used or f["api"] == "cli_new"
+            f = gen_fresh(rng, cheap=cli_used >= 2)
+            cli_used += f["api"] == "cli_new"
+            if f["api"] == "cli_new" and cli_used == 1 and rng.random() < 0.5:
+                steps.append({"op": "fresh", "fresh": dict(f)})      # the same CLI request twice in one process
+                cli_used += 1
             steps.append({"op": "fresh", "fresh": f})
         elif x < 0.40:
             steps.append({"op": "prng_seed", "c": rng.choice([0, 1, 42, rng.getrandbits(32)])})
